@@ -21,7 +21,10 @@ use emmylua_code_analysis::{
     uri_to_file_path,
 };
 use lsp_types::InitializeParams;
+#[cfg(not(emmyluals_emmylua_analyzer_rust_verif))]
 use tokio::sync::RwLock;
+#[cfg(emmyluals_emmylua_analyzer_rust_verif)]
+use crate::verif_lock::RwLock;
 
 pub async fn initialized_handler(
     context: ServerContextSnapshot,
